@@ -1,0 +1,53 @@
+//go:build verif
+// +build verif
+
+package gmtls
+
+import (
+	"encoding/json"
+	"os"
+	"runtime/debug"
+	"sync"
+)
+
+// With the environment variable VERIF_TRACE set, every record-layer event of every connection
+// made by the package's own tests is appended to that file (one JSON object per line), so that
+// the executions of the existing tests can be validated against the record-layer specification.
+func init() {
+	path := os.Getenv("VERIF_TRACE")
+	if path == "" {
+		return
+	}
+	f, err := os.OpenFile(path, os.O_CREATE|os.O_WRONLY|os.O_APPEND, 0644)
+	if err != nil {
+		return
+	}
+	// half connections are identified by their address: nothing is collected while tracing, so no address is reused
+	debug.SetGCPercent(-1)
+	var mu sync.Mutex
+	ids := map[uintptr]int{}
+	VerifSink = func(e VerifEvent) {
+		mu.Lock()
+		defer mu.Unlock()
+		id, ok := ids[e.HC]
+		if !ok {
+			id = len(ids) + 1
+			ids[e.HC] = id
+		}
+		m := map[string]interface{}{"ev": e.Ev, "hc": id}
+		switch e.Ev {
+		case "enc":
+			iv := make([]int, len(e.IV))
+			for i, b := range e.IV {
+				iv[i] = int(b)
+			}
+			m["seq"], m["typ"], m["iv"], m["len"] = e.Seq, e.Typ, iv, e.Len
+		case "dec":
+			m["seq"], m["typ"], m["ok"], m["alert"] = e.Seq, e.Typ, e.OK, e.Alert
+		case "seterr":
+			m["seq"], m["err"] = e.Seq, e.Err
+		}
+		b, _ := json.Marshal(m)
+		f.Write(append(b, '\n'))
+	}
+}
